@@ -30,6 +30,7 @@ CONSTANTS Geoms,       \* sequence of [name, cls, dims, edges, depth]
           NarrowOps, NarrowArity,
           Lanes,       \* one initial state per first site tuple (parallelism of the exhaustive run)
           Record,      \* keep the history (simulation / replay) or not (exhaustive)
+          Sim,         \* simulation: draw one random candidate per quantifier instead of enumerating all of them
           Bug          \* "none", or a named mutation of Impl used as a self-test of the model
 
 VARIABLES geom, lane, psi, outer, sitetags, form, depth, nrej, ok, hist, pend
@@ -81,7 +82,9 @@ NarrowRoutes(cls) ==
 
 Whiches(cls, r) ==
   IF ~IsOp(cls) THEN {"site"}
-  ELSE CASE r.entry = "gate_upper" -> {"upper"} [] r.entry = "gate_lower" -> {"lower"} [] r.entry = "gate_sandwich" -> {"sandwich"}
+  ELSE CASE r.entry = "gate_upper" -> {"upper"} [] r.entry = "gate_lower" -> {"lower"}
+         [] r.entry \in {"gate_sandwich", "gate_simple", "gate_sandwich_with_auto_swap"} -> {"sandwich"}   \* no other spelling
+         [] r.entry \in {"gate_inds_with_tn", "Tensor.gate"} -> {"upper", "lower"}
          [] OTHER -> {"upper", "lower", "sandwich"}
 
 (* ---------------- the implementation-shaped update ---------------- *)
@@ -260,6 +263,10 @@ FamilyRoute(fam, w) ==
     [] fam = "oplazy"  -> R("op_lazy", "lazy")
     [] OTHER           -> R("gate", "True")
 
+\* TLC's simulator builds every successor before it picks one; for the replay behaviours one random candidate
+\* per quantifier is drawn instead (RandomElement is seeded by -seed)
+Pick(S) == IF Sim /\ S # {} THEN {RandomElement(S)} ELSE S
+
 AcceptedRoutes(s, op, w) ==
   {r \in Routes : /\ w \in Whiches(geom.cls, r)
                   /\ Accepts(geom.cls, r.entry, r.mode, Len(s), PairAdjacent(geom.edges, s), form, op, w) = "yes"}
@@ -269,9 +276,8 @@ AcceptedRoutes(s, op, w) ==
 \* of every implementation family that has an accepted route;  the Apply... steps (one action per family, so
 \* that coverage is reported per family) then take every accepted route.
 Choose ==
-  \E s \in Sites, g \in Gids, op \in Ops, w \in {"site", "upper", "lower", "sandwich"} :
+  \E s \in Pick(Sites), g \in Pick(Gids), op \in Pick(Ops), w \in Pick({x \in {"site", "upper", "lower", "sandwich"} : WhichOK(geom.cls, x)}) :
     /\ pend = <<>> /\ depth < DepthBound
-    /\ WhichOK(geom.cls, w)
     /\ LET G    == GateFor(SubDims(geom.dims, s), g)
            fams == {Family(r, Len(s), w) : r \in AcceptedRoutes(s, op, w)}
        IN  /\ fams # {}
@@ -281,26 +287,25 @@ Choose ==
     /\ UNCHANGED <<geom, lane, psi, outer, sitetags, form, depth, nrej, ok, hist>>
 
 ApplyFam(fam) ==
-  /\ pend # <<>>
-  /\ \E r \in AcceptedRoutes(pend.sites, pend.op, pend.which) :
-       /\ Family(r, Len(pend.sites), pend.which) = fam
+     \E r \in Pick({x \in AcceptedRoutes(pend.sites, pend.op, pend.which) : fam \in {"any", Family(x, Len(pend.sites), pend.which)}}) :
        /\ psi' = pend.ref
        /\ outer' = outer /\ sitetags' = sitetags
        /\ form' = FormAfter(form, r.entry, r.mode, Len(pend.sites))
-       /\ ok' = (pend.imp[fam] = pend.ref)
+       /\ ok' = (pend.imp[Family(r, Len(pend.sites), pend.which)] = pend.ref)
        /\ depth' = depth + 1 /\ nrej' = nrej /\ lane' = <<>> /\ pend' = <<>>
        /\ hist' = IF Record THEN Append(hist, Act("apply", r, pend.sites, pend.G, pend.op, pend.which)) ELSE hist
        /\ UNCHANGED geom
 
-ApplyWired    == ApplyFam("wired")
-ApplySandwich == ApplyFam("sandwich")
-ApplySwapped  == ApplyFam("swapped")
-ApplySubMpo   == ApplyFam("submpo")
-ApplyOpLazy   == ApplyFam("oplazy")
+ApplyWired    == pend # <<>> /\ ApplyFam("wired")
+ApplySandwich == pend # <<>> /\ ApplyFam("sandwich")
+ApplySwapped  == pend # <<>> /\ ApplyFam("swapped")
+ApplySubMpo   == pend # <<>> /\ ApplyFam("submpo")
+ApplyOpLazy   == pend # <<>> /\ ApplyFam("oplazy")
+ApplyAny      == pend # <<>> /\ ApplyFam("any")          \* simulation only
 
 \* a combination the table refuses: quimb raises, nothing changes
 Reject ==
-  \E r \in Routes, s \in Sites, op \in {"N"} : \E w \in Whiches(geom.cls, r) :
+  \E r \in Pick(Routes), s \in Pick(Sites), op \in {"N"} : \E w \in Pick(Whiches(geom.cls, r)) :
      /\ pend = <<>> /\ depth < DepthBound /\ nrej < 1
      /\ Accepts(geom.cls, r.entry, r.mode, Len(s), PairAdjacent(geom.edges, s), form, op, w) = "no"
      /\ ~(r.entry = "Tensor.gate")
@@ -323,6 +328,8 @@ CheckFacts ==
 
 Next == Choose \/ ApplyWired \/ ApplySandwich \/ ApplySwapped \/ ApplySubMpo \/ ApplyOpLazy \/ Reject \/ CheckFacts
 Spec == Init /\ [][Next]_vars
+SimNext == Choose \/ ApplyAny \/ Reject
+SimSpec == Init /\ [][SimNext]_vars
 
 (* ---------------- properties ---------------- *)
 \* every accepted (geometry, arity, route) maps to the one abstract update (and the facts of the reference hold)
